@@ -78,7 +78,7 @@ func (p *Prog) verifyFunc(fi *FuncInfo, spec *FuncSpec, degraded bool, unroll ..
 		res.Notes = append(res.Notes, "trusted: body of "+fi.Key+" not verified ("+spec.Opts["trusted_reason"]+")")
 		return
 	}
-	vc := &VC{p: p, u: p.u, fi: fi, spec: spec, info: fi.Pkg.TypesInfo, pkg: fi.Pkg.Types,
+	vc := &VC{p: p, u: p.u, fi: fi, spec: spec, curProp: p.curProp, info: fi.Pkg.TypesInfo, pkg: fi.Pkg.Types,
 		declSeen: map[string]bool{}, heap0: map[string]Term{}, heapSort: map[string]string{}, heapElemT: map[string]types.Type{},
 		counters: map[string]int{}, params: map[string]types.Object{}, paramTerm: map[string]Term{},
 		closures: map[string]*funcVal{}, litResults: map[*ast.FuncLit][]*types.Var{}, usedLoops: map[int]bool{}, usedSpecs: map[string]bool{}, usedAnchors: map[string]bool{}, lazyHeaps: map[string]Term{}, havocKnown: map[string]map[string]bool{}}
@@ -239,6 +239,9 @@ func (p *Prog) verifyFunc(fi *FuncInfo, spec *FuncSpec, degraded bool, unroll ..
 	env := vc.specEnv(st, vc.entry)
 	var reqs []string
 	for _, r := range spec.Requires {
+		if !vc.wanted(r.Props) {
+			continue
+		}
 		f := env.evalBool(r.Expr)
 		reqs = append(reqs, f)
 		st.assume(f)
@@ -307,6 +310,9 @@ func (vc *VC) checkPost(ex *State) {
 	}
 	env.allocOld = "alloc@0"
 	for _, e := range vc.spec.Ensures {
+		if !vc.wanted(e.Props) {
+			continue
+		}
 		g := env.evalBool(e.Expr)
 		vc.oblige(ex, "post", e.Text, e.Where, g, e.Props)
 	}
